@@ -195,3 +195,174 @@ func Holds(items []Item, k, x int, label string) {
 	}
 	v.Assert(ok, label)
 }
+
+// Navigation operations (C02).
+const (
+	NavFloor = iota
+	NavCeiling
+	NavLeft
+	NavRight
+)
+
+// NavCheck states C02 for one navigation call: q is the probe key, (hasNode, nk, nv) the result.
+func NavCheck(op int, q int, found, hasNode bool, nk, nv int, items []Item) {
+	v.Assert(found == hasNode, "C02:found-iff-node")
+	if hasNode {
+		Holds(items, nk, nv, "C02:result-is-an-element")
+	}
+	switch op {
+	case NavFloor:
+		if found {
+			v.Assert(!Less(q, nk), "C02:floor-not-above-key")
+			Outside(items, true, nk, false, true, q, true, "C02:floor-greatest")
+		} else {
+			Outside(items, false, 0, false, true, q, true, "C02:floor-notfound-but-exists")
+		}
+	case NavCeiling:
+		if found {
+			v.Assert(!Less(nk, q), "C02:ceiling-not-below-key")
+			Outside(items, true, q, true, true, nk, false, "C02:ceiling-least")
+		} else {
+			Outside(items, true, q, true, false, 0, false, "C02:ceiling-notfound-but-exists")
+		}
+	case NavLeft:
+		if found {
+			Outside(items, false, 0, false, true, nk, false, "C02:left-least")
+		} else {
+			Outside(items, false, 0, false, false, 0, false, "C02:left-nil-but-nonempty")
+		}
+	case NavRight:
+		if found {
+			Outside(items, true, nk, false, false, 0, false, "C02:right-greatest")
+		} else {
+			Outside(items, false, 0, false, false, 0, false, "C02:right-nil-but-nonempty")
+		}
+	}
+}
+
+// Iterator operations (C08).
+const (
+	ItNext = iota
+	ItPrev
+	ItBegin
+	ItEnd
+	ItFirst
+	ItLast
+	ItNextTo
+	ItPrevTo
+)
+
+// Cursor positions.
+const (
+	PosBegin = iota
+	PosBetween
+	PosEnd
+)
+
+// IterCheck states C08 for one call on a key-ordered iterator: from cursor state (pos, x) the call op returned ok
+// and left the cursor at (posAfter, r). items is the container's in-order sequence.
+func IterCheck(op, pos int, xk int, ok bool, hasR bool, rk, rv int, posAfter int, items []Item) {
+	if op == ItBegin || op == ItEnd {
+		if op == ItBegin {
+			v.Assert(posAfter == PosBegin, "C08:begin-position")
+		} else {
+			v.Assert(posAfter == PosEnd, "C08:end-position")
+		}
+		v.Assert(!hasR, "C08:sentinel-has-no-element")
+		return
+	}
+	if ok {
+		v.Assert(hasR, "C08:node-after-successful-move")
+		if !hasR {
+			return
+		}
+		Holds(items, rk, rv, "C08:position-is-an-element")
+	}
+	forward := op == ItNext || op == ItFirst
+	fromBegin := op == ItFirst || (op == ItNext && pos == PosBegin)
+	fromEnd := op == ItLast || (op == ItPrev && pos == PosEnd)
+	switch {
+	case forward && fromBegin:
+		if ok {
+			Outside(items, false, 0, false, true, rk, false, "C08,C02:first-is-least")
+		} else {
+			Outside(items, false, 0, false, false, 0, false, "C08:next-from-begin-false-but-nonempty")
+		}
+	case forward && pos == PosEnd:
+		v.Assert(!ok, "C08:next-saturates-at-end")
+	case forward:
+		if ok {
+			v.Assert(Less(xk, rk), "C08,C02:next-ascends")
+			Outside(items, true, xk, false, true, rk, false, "C08,C02:next-skips-nothing")
+		} else {
+			Outside(items, true, xk, false, false, 0, false, "C08:next-false-but-later-element")
+		}
+	case fromEnd:
+		if ok {
+			Outside(items, true, rk, false, false, 0, false, "C08,C02:last-is-greatest")
+		} else {
+			Outside(items, false, 0, false, false, 0, false, "C08:prev-from-end-false-but-nonempty")
+		}
+	case pos == PosBegin:
+		v.Assert(!ok, "C08:prev-saturates-at-begin")
+	default:
+		if ok {
+			v.Assert(Less(rk, xk), "C08,C02:prev-descends")
+			Outside(items, true, rk, false, true, xk, false, "C08,C02:prev-skips-nothing")
+		} else {
+			Outside(items, false, 0, false, true, xk, false, "C08:prev-false-but-earlier-element")
+		}
+	}
+	if ok {
+		v.Assert(posAfter == PosBetween, "C08:position-between")
+	} else if forward {
+		v.Assert(v.And(posAfter == PosEnd, !hasR), "C08:position-end")
+	} else {
+		v.Assert(v.And(posAfter == PosBegin, !hasR), "C08:position-begin")
+	}
+}
+
+// Work bounds of C07: least n+1 (resp. n+2) for which the documented comparator-call bound admits c calls.
+
+// RBMinNPlus1: least t with 2*log2(t)+2 >= c, i.e. t*t >= 2^(c-2).
+func RBMinNPlus1(c int) int {
+	if c <= 2 {
+		return 1
+	}
+	t := 1
+	for t*t < 1<<(c-2) {
+		t++
+	}
+	return t
+}
+
+// GetCheck states C01 for a lookup: (x, found) against the in-order items; absent keys must be provably absent.
+func GetCheck(items []Item, k int, x int, found bool) {
+	if found {
+		ok := false
+		for _, it := range items {
+			if it.T == nil {
+				ok = v.Or(ok, v.And(Equiv(it.K, k), it.V == x))
+			}
+		}
+		v.Assert(ok, "C01:get-value")
+		return
+	}
+	v.Assert(x == 0, "C01:get-zero")
+	for _, it := range items {
+		if it.T == nil {
+			v.Assert(!Equiv(it.K, k), "C01:get-missed")
+		} else {
+			v.Assert(it.T.(Thunk).VOutside(true, k, true, k), "C01:get-missed-subtree")
+		}
+	}
+}
+
+// Absent: no unexpanded part can hold a key equivalent to k.
+func Absent(items []Item, k int, label string) {
+	for _, it := range items {
+		if it.T != nil {
+			v.Assert(it.T.(Thunk).VOutside(true, k, true, k), label)
+		}
+	}
+}
